@@ -179,8 +179,13 @@ func (d *Decoder) decodeSet(mem MemCache, msg *Message) error {
 		}
 	}
 
-	// the next set should be greater than 4 bytes otherwise that's padding
-	for err == nil && setHeader.Length > uint16(d.reader.ReadCount()-startCount) && d.reader.Len() > 4 && setHeader.Length-uint16(d.reader.ReadCount()-startCount) > 4 {
+	// whatever is left in the set and is shorter than the shortest possible record is padding
+	// (RFC 7011 section 3.3.1); for template sets a record needs more than 4 bytes
+	minLen := uint16(5)
+	if setHeader.SetID > 255 && err == nil {
+		minLen = tr.minRecordLen()
+	}
+	for err == nil && setHeader.Length > uint16(d.reader.ReadCount()-startCount) && d.reader.Len() >= int(minLen) && setHeader.Length-uint16(d.reader.ReadCount()-startCount) >= minLen {
 		if setID := setHeader.SetID; setID == 2 || setID == 3 {
 			// Template record or template option record
 
@@ -477,6 +482,25 @@ func (tr *TemplateRecord) unmarshalOpts(r *reader.Reader) error {
 		tr.FieldSpecifiers = append(tr.FieldSpecifiers, tf)
 	}
 	return nil
+}
+
+// minRecordLen returns the length of the shortest data record the template
+// can describe: a variable-length field takes at least its length octet.
+func (tr *TemplateRecord) minRecordLen() uint16 {
+	var n uint32
+	for _, specs := range [][]TemplateFieldSpecifier{tr.ScopeFieldSpecifiers, tr.FieldSpecifiers} {
+		for _, f := range specs {
+			if f.Length == 65535 {
+				n++
+			} else {
+				n += uint32(f.Length)
+			}
+		}
+	}
+	if n > 65535 {
+		n = 65535
+	}
+	return uint16(n)
 }
 
 func (d *Decoder) getDataLength(fieldSpecifierLen uint16, t FieldType) (uint16, error) {
